@@ -25,6 +25,8 @@ def _allids(run, rule, ast):
         run.rule(x, "(decided by C05)", floor=0)
     run.rule("C10-idspace", "the hash search treats every value except invalid_type as a legal id (small integer ids, id 0) and never overwrites a claimed bucket", floor=9)
     crules.hash_rules(run, "C10-idspace", "C10-x2", "C10-x3", "C10-x4", rule, ast)
+    from . import c09
+    c09.table_writer_overwrites(run, ast, rule)      # every id's entry is (re)written by every update
     run.violations = [v for v in run.violations if not v["rule"].startswith("C10-x")]
     for x in ("C10-x2", "C10-x3", "C10-x4"):
         del run.rules[x]
